@@ -45,6 +45,8 @@ def _pure(e: ast.AST) -> bool:
         return _pure(e.value)
     if isinstance(e, ast.Subscript):
         return _pure(e.value) and isinstance(e.slice, ast.Constant)
+    if isinstance(e, ast.Tuple) and isinstance(e.ctx, ast.Load):  # a display of constants (rows of a table handed to a helper)
+        return all(isinstance(x, ast.Constant) or (isinstance(x, ast.Tuple) and all(isinstance(y, ast.Constant) for y in x.elts)) for x in e.elts)
     return False
 
 
@@ -884,6 +886,17 @@ class Inliner:
         lp = self._comp_to_loop(st)
         if lp is not None:
             return self.process_block(lp)
+        # `if a and helper(x): S [else: T]`: the helper call sits in a conditional position; as nested ifs it is the first thing its own `if` evaluates
+        if isinstance(st, ast.If) and isinstance(st.test, ast.BoolOp) and isinstance(st.test.op, ast.And) and len(st.test.values) >= 2 \
+                and not any(isinstance(x, (ast.NamedExpr, ast.Yield, ast.YieldFrom, ast.Await)) for x in ast.walk(st.test)) \
+                and any(isinstance(x, ast.Call) and self._callee(x) is not None for v_ in st.test.values[1:] for x in ast.walk(v_)) \
+                and len(st.orelse) <= 3 and not any(isinstance(x, (ast.FunctionDef, ast.AsyncFunctionDef, ast.ClassDef, ast.Lambda)) for o_ in st.orelse for x in ast.walk(o_)):
+            import copy as _copy
+            rest = st.test.values[1:]
+            inner_test = rest[0] if len(rest) == 1 else ast.copy_location(ast.BoolOp(op=ast.And(), values=rest), st.test)
+            inner = ast.copy_location(ast.If(test=inner_test, body=st.body, orelse=_copy.deepcopy(st.orelse)), st)
+            outer = ast.copy_location(ast.If(test=st.test.values[0], body=[inner], orelse=st.orelse), st)
+            return self.process_block([outer])
         if isinstance(st, ast.For):
             lp = self._for_over_generator(st)
             if lp is not None:
@@ -1120,6 +1133,8 @@ class Inliner:
                 if self._callee(x) is not None and all(_pure(a) for a in x.args) and all(_pure(k.value) for k in x.keywords):
                     return x
                 return None
+            if isinstance(x, ast.Attribute) and isinstance(x.value, ast.Name) and x.attr in _CONTAINER_METHODS:
+                continue  # `acc.update(helper(...))`: looking up a container method on a local evaluates nothing a helper could observe or change
             if not _pure(x) and not isinstance(x, (ast.UnaryOp, ast.Compare, ast.BoolOp, ast.BinOp, ast.Tuple, ast.List)):
                 return None
         return None
@@ -1302,6 +1317,7 @@ def _eval_order(e: ast.AST) -> List[ast.AST]:
 
 
 _BLOCK = object()
+_CONTAINER_METHODS = frozenset({"update", "append", "extend", "add", "setdefault", "join", "insert", "union", "intersection", "difference", "issubset", "issuperset"})
 
 
 def _first_comp(e: ast.expr, consumers: Tuple[str, ...]):
